@@ -94,7 +94,7 @@ func verifC08Group(N, maxVal int) {
 }
 
 func VerifHarness_C08_Group_MapOrder_2() { verifC08Group(2, 1) }
-func VerifHarness_C08_Group_MapOrder_3() { verifC08Group(3, 2) }
+func VerifHarness_C08_Group_MapOrder_3() { verifC08Group(3, 1) }
 
 // C08-O2: concrete label sets chosen to be ambiguous under sloppy stream keys
 // (name/value boundary, pair boundary, quoting): records share a stream iff
